@@ -38,7 +38,7 @@ pub fn run(wseed: u64, rt: &tokio::runtime::Runtime) {
         for _ in 0..n {
             let op = match rng.below(8) {
                 0..=3 => Op::Run { pends: rng.below(3) as u32, fail: rng.chance(1, 4), slow_drop: if rng.chance(1, 3) { 1 + rng.below(3) as u32 } else { 0 } },
-                4..=6 => Op::Cancel { polls: 1 + rng.below(3) as u32, pends: 2 + rng.below(3) as u32, slow_drop: if rng.chance(1, 2) { 1 + rng.below(4) as u32 } else { 0 } },
+                4..=6 => Op::Cancel { polls: 1 + rng.below(3) as u32, pends: 2 + rng.below(3) as u32, slow_drop: if rng.chance(3, 4) { 1 + rng.below(4) as u32 } else { 0 } },
                 _ => Op::DropUnpolled,
             };
             v.push(op);
